@@ -144,7 +144,27 @@ def rand_batch(rng):
             pbs.insert(rng.randint(0, len(pbs)), dict(sequence=sq, shared_constraints=[], shared_objectives=[],
                                                       constraints=[dict(kind="kmers", k=k, location=None, rc=rc)], objectives=[],
                                                       settings={}, np_seed=rng.randint(0, 10 ** 6), ops=["resolve"]))
-    return dict(shared=shared, problems=pbs, share_tables=True)
+    share_locations = rng.random() < 0.6
+    if share_locations:
+        # the user keeps Location objects and hands the same object to specifications of different problems: a gene
+        # region that some problems freeze / diversify and others recode
+        m = rng.randint(2, max(2, n // 3 - 1))
+        a = rng.randint(0, n - 3 * m)
+        gene = [a, a + 3 * m, rng.choice([-1, -1, 1, 0])]
+        for pb in pbs:
+            r = rng.random()
+            if r < 0.3:
+                pb["constraints"].append(dict(kind=rng.choice(["keep", "change"]), location=list(gene)))
+            elif r < 0.45:
+                pb["objectives"].append(dict(kind=rng.choice(["keep_obj", "change_obj"]), location=list(gene), boost=1))
+            elif r < 0.8:
+                st = gene[2] if gene[2] != 0 else 1
+                pb["constraints"].append(dict(kind="cds", location=gene[:2] + [st], table="Standard", start_codon=None, translation=None))
+                if rng.random() < 0.6:
+                    pb["objectives"].append(dict(kind="cai", location=gene[:2] + [st], table_seed=rng.choice([11, 22]), boost=1))
+                    if "optimize" not in pb["ops"]:
+                        pb["ops"] = pb["ops"] + ["optimize"]
+    return dict(shared=shared, problems=pbs, share_tables=True, share_locations=share_locations)
 
 
 def rand_configs(rng, batch):
